@@ -1,3 +1,5 @@
 import Tx3Proofs.C15
 import Tx3Proofs.C06
 import Tx3Proofs.C07
+import Tx3Proofs.C03
+import Tx3Proofs.C04
